@@ -4,9 +4,14 @@
 From Coq Require Import ZArith List String.
 From Coq Require Extraction ExtrOcamlBasic.
 Require Import Prim.Exn Prim.Dict Prim.Bits Gen.GenEnums Gen.GenComm Spec.CommSpec.
+Require Import Model.FieldTypes Gen.GenTables Gen.GenDispatch Gen.GenConv Gen.GenAlpha Gen.GenConst Model.Codec Spec.Layout.
 Extraction Language OCaml.
 Extraction "extracted.ml"
   (* integers, used by the driver's I/O conversions *)
   Z.add Z.mul Z.opp Z.div_eucl Z.eqb Z.ltb Z.of_nat Z.to_nat
   (* C20 *)
+  (* codec *)
+  decode_bits decode_bits_as decode_into_bit_array create_msg to_bitarray encode_ascii_6 fields_of class_name enum_name
+  all_classes all_enums from_bitarray create_cls
+  spec_variant spec_decode variant_class nominal disc_end text_pad_zero senum_name spec_layout
   get_communication_state is_sotdma is_itdma communication_state_raw comm_spec spec_scheme utc_minute_comparable.
